@@ -302,7 +302,29 @@ func execEngine(args []string) string {
 		if pan {
 			return "res=panic p.total=0"
 		}
-		return fmt.Sprintf("res=ok sp=%s msgs=%s p.total=1", spStr(sp), canonGoMsgs(out))
+		// "malformed or missing parameter values are reported": reading the standard items left to right, the first value that is
+		// missing or not an integer must produce some line of output (judged only up to the first unknown keyword)
+		valueKw := map[string]bool{"wtime": true, "btime": true, "winc": true, "binc": true, "movestogo": true, "movetime": true, "depth": true, "nodes": true, "mate": true}
+		mustReport := false
+		for i := 0; i < len(toks); i++ {
+			if toks[i] == "infinite" {
+				continue
+			}
+			if !valueKw[toks[i]] {
+				break
+			}
+			if i+1 >= len(toks) {
+				mustReport = true
+				break
+			}
+			if _, err := strconv.Atoi(toks[i+1]); err != nil {
+				mustReport = true
+				break
+			}
+			i++
+		}
+		reported := !mustReport || strings.TrimSpace(out) != ""
+		return fmt.Sprintf("res=ok sp=%s msgs=%s p.total=1 p.reported=%s", spStr(sp), canonGoMsgs(out), b2s(reported))
 	case "gof":
 		// gof <expected sp> <expected notimpl count> <tokens…>: a grammatical go line with the values it must yield
 		toks := make([]string, 0, len(args)-3)
@@ -696,6 +718,10 @@ func ttOps(o *Out, seed uint64, n int) {
 				sc := scores[rng.Intn(len(scores))] + rng.Intn(5) - 2
 				if rng.Intn(40) == 0 {
 					sc = 32767 - rng.Intn(60) // mate range: outside the property's domain for the score clause, still compared with the model
+				}
+				if rng.Intn(25) == 0 {
+					// the two sides of the boundary of the mate range (|score| = INF-100 is the last ordinary score)
+					sc = []int{32667, 32666, 32668, -32667, -32666, -32668}[rng.Intn(6)]
 				}
 				mv := 1 + rng.Intn(4000)
 				if rng.Intn(8) == 0 {
